@@ -567,6 +567,14 @@ func (vc *VC) execGhost(st *State, g *ghostStmt, callRes ...Val) {
 		key := objKey(p.Root, joinPath(p.Path, lhs.Name))
 		arr := st.get(key)
 		st.set(key, tIte(cond, tStore(arr, p.Base, val), arr))
+	case "call":
+		if gd := vc.cs.Ghosts[strings.TrimPrefix(lhs.Name, "$")]; gd != nil && strings.HasPrefix(lhs.Name, "$") && strings.HasPrefix(gd.Sort, "fun ") {
+			x := ec.evalTerm(lhs.Args[0])
+			key, arr := ec.ghostFunArr(lhs.Name[1:], x.Sort)
+			st.set(key, tIte(cond, tStore(arr, x, val), arr))
+		} else {
+			fail("ghost assignment target %s", g.lhs)
+		}
 	case "ident":
 		st.ghostLocals[lhs.Name] = TV{st.define("gl."+lhs.Name, val), nil}
 	default:
